@@ -3,7 +3,6 @@ package main
 // Ground instantiation of quantified hypotheses (E-matching done by us), used
 // to obtain quantifier-free queries on which solvers can return models.
 
-import "sort"
 
 func (c *Ctx) hasQuant(t *Term, memo map[*Term]bool) bool {
 	if v, ok := memo[t]; ok {
@@ -117,14 +116,16 @@ func (c *Ctx) match(p, g *Term, vars map[*Term]bool, m map[*Term]*Term) bool {
 	if !p.bound {
 		return p == g
 	}
-	if p.op != g.op || len(p.args) != len(g.args) || p.sort != g.sort {
-		// arithmetic patterns such as k+1 also match a literal or any term g by solving for k
-		if (p.op == "+" || p.op == "bvadd") && len(p.args) == 2 && vars[p.args[0]] && !p.args[1].bound {
-			if _, ok := m[p.args[0]]; !ok && p.sort == g.sort {
-				m[p.args[0]] = c.Sub(g, p.args[1])
-				return true
-			}
+	// arithmetic patterns such as k+1 match any term g of the same sort by solving for k
+	if (p.op == "+" || p.op == "bvadd") && len(p.args) == 2 && vars[p.args[0]] && !p.args[1].bound && p.sort == g.sort {
+		want := c.Sub(g, p.args[1])
+		if old, ok := m[p.args[0]]; ok {
+			return old == want
 		}
+		m[p.args[0]] = want
+		return true
+	}
+	if p.op != g.op || len(p.args) != len(g.args) || p.sort != g.sort {
 		return false
 	}
 	for i := range p.args {
@@ -151,36 +152,81 @@ func collectSub(t *Term, seen map[*Term]bool, out *[]*Term) {
 	}
 }
 
-// groundInstances returns quantifier-free consequences of the quantified hypotheses,
-// matched against the ground terms of the query (rounds of E-matching).
+type qitem struct {
+	guard *Term // quantifier-free guard (nil: none)
+	q     *Term // a forall term
+}
+
+// splitFormula decomposes a formula (asserted true) into quantifier-free conjuncts and guarded
+// universally quantified items; anything else that contains a quantifier is dropped (sound: fewer
+// hypotheses).
+func (c *Ctx) splitFormula(h *Term, guard *Term, memoQ map[*Term]bool, qf *[]*Term, qs *[]qitem, dropped *int) {
+	if !c.hasQuant(h, memoQ) {
+		if guard != nil {
+			h = c.Implies(guard, h)
+		}
+		*qf = append(*qf, h)
+		return
+	}
+	switch {
+	case h.op == "forall":
+		*qs = append(*qs, qitem{guard, h})
+	case h.op == "and":
+		for _, a := range h.args {
+			c.splitFormula(a, guard, memoQ, qf, qs, dropped)
+		}
+	case h.op == "=>" && !c.hasQuant(h.args[0], memoQ):
+		g := h.args[0]
+		if guard != nil {
+			g = c.And(guard, g)
+		}
+		c.splitFormula(h.args[1], g, memoQ, qf, qs, dropped)
+	case h.op == "not" && h.args[0].op == "=>":
+		c.splitFormula(h.args[0].args[0], guard, memoQ, qf, qs, dropped)
+		c.splitFormula(c.Not(h.args[0].args[1]), guard, memoQ, qf, qs, dropped)
+	case h.op == "not" && h.args[0].op == "or":
+		for _, a := range h.args[0].args {
+			c.splitFormula(c.Not(a), guard, memoQ, qf, qs, dropped)
+		}
+	case h.op == "ite" && !c.hasQuant(h.args[0], memoQ):
+		g1, g2 := h.args[0], c.Not(h.args[0])
+		if guard != nil {
+			g1, g2 = c.And(guard, g1), c.And(guard, g2)
+		}
+		c.splitFormula(h.args[1], g1, memoQ, qf, qs, dropped)
+		c.splitFormula(h.args[2], g2, memoQ, qf, qs, dropped)
+	default:
+		*dropped++
+	}
+}
+
+// groundInstances returns quantifier-free consequences of hyps ∧ ¬goal: the quantifier-free parts
+// plus instances of the (guarded) universally quantified parts, matched against the ground terms
+// of the query by rounds of E-matching on the declared patterns. If the result is unsat, so is
+// hyps ∧ ¬goal. If it is sat the model is a candidate counterexample.
 func (c *Ctx) groundInstances(hyps []*Term, goal *Term, rounds int) (qf []*Term, dropped int) {
 	memoQ := map[*Term]bool{}
-	var quants []*Term
+	var quants []qitem
 	for _, h := range hyps {
-		if c.hasQuant(h, memoQ) {
-			if h.op == "forall" {
-				quants = append(quants, h)
-			} else {
-				dropped++
-			}
-		} else {
-			qf = append(qf, h)
-		}
+		c.splitFormula(h, nil, memoQ, &qf, &quants, &dropped)
 	}
-	done := map[[2]int]bool{}
+	c.splitFormula(c.Not(goal), nil, memoQ, &qf, &quants, &dropped)
+	done := map[[3]int]bool{}
 	for r := 0; r < rounds; r++ {
 		seen := map[*Term]bool{}
 		var ground []*Term
 		for _, h := range qf {
 			collectSub(h, seen, &ground)
 		}
-		collectSub(goal, seen, &ground)
 		byOp := map[string][]*Term{}
 		for _, g := range ground {
 			byOp[g.op] = append(byOp[g.op], g)
 		}
 		added := 0
-		for _, q := range quants {
+		nq := len(quants)
+		for qi := 0; qi < nq; qi++ {
+			it := quants[qi]
+			q := it.q
 			n := qnvars[q]
 			vars := map[*Term]bool{}
 			for _, v := range q.args[:n] {
@@ -204,45 +250,35 @@ func (c *Ctx) groundInstances(hyps []*Term, goal *Term, rounds int) (qf []*Term,
 						}
 					}
 					subs = next
-					if len(subs) > 400 {
-						subs = subs[:400]
+					if len(subs) > 600 {
+						subs = subs[:600]
 					}
 				}
 				for _, s := range subs {
 					if len(s) != n {
 						continue
 					}
-					// dedupe by (quantifier, instance ids)
-					key := [2]int{q.id, 0}
-					h := 17
-					var ids []int
+					key := [3]int{q.id, 17, 0}
+					if it.guard != nil {
+						key[2] = it.guard.id
+					}
 					for _, v := range q.args[:n] {
-						ids = append(ids, s[v].id)
+						key[1] = key[1]*1000003 + s[v].id
 					}
-					for _, id := range ids {
-						h = h*1000003 + id
-					}
-					key[1] = h
 					if done[key] {
 						continue
 					}
 					done[key] = true
 					inst := c.subst(body, s, map[*Term]*Term{})
-					if c.hasQuant(inst, memoQ) {
-						if inst.op == "forall" {
-							quants = append(quants, inst)
-						}
-						continue
-					}
-					qf = append(qf, inst)
-					added++
+					before := len(qf)
+					c.splitFormula(inst, it.guard, memoQ, &qf, &quants, &dropped)
+					added += len(qf) - before
 				}
 			}
 		}
-		if added == 0 {
+		if added == 0 && len(quants) == nq {
 			break
 		}
 	}
-	sort.SliceStable(qf, func(i, j int) bool { return false })
 	return qf, dropped + len(quants)
 }
